@@ -584,6 +584,55 @@ def run_history(ctx, schemas, hist):
     return fresh, [call(schemas[i][2], o) for i, o in hist]
 
 
+def run_long_descriptions(ctx):
+    """Description lines LONGER than the printer's wrap width (120 - indent), with and without break opportunities.
+    The property allows lines the printer re-wraps to change; the class is measured every run: a re-wrapped description is
+    finding H12 (own signature), a long line WITHOUT a break opportunity must survive."""
+    from py_gql import build_schema
+    from py_gql import schema as S
+    rng = ctx.rng
+    for k in range(ctx.n(24, 120)):
+        n = rng.randint(121, 150)
+        shape = rng.choice(["no-break", "spaces", "hyphens", "underscores", "second-line", "mixed"])
+        if shape == "no-break":
+            desc = "x" * n
+        elif shape == "spaces":
+            desc = " ".join("w" * rng.randint(5, 70) for _ in range(4))
+        elif shape == "hyphens":
+            desc = "-".join("h" * rng.randint(20, 60) for _ in range(4))
+        elif shape == "underscores":
+            desc = "_".join("u" * rng.randint(20, 60) for _ in range(4))
+        elif shape == "second-line":
+            desc = "short first line\n" + "y" * rng.randint(100, 125) + " " + "z" * rng.randint(1, 30)
+        else:
+            desc = ("w" * 119 + " ") * 2 + "end"
+        if max(len(l) for l in desc.split("\n")) <= 116:
+            continue
+        where = rng.choice(["type", "field", "argument"])
+        arg = S.Argument("a", S.Int, description=desc if where == "argument" else None)
+        fld = S.Field("f", S.Int, args=[arg], description=desc if where == "field" else None)
+        schema = S.Schema(S.ObjectType("Query", [fld], description=desc if where == "type" else None))
+        ctx.count()
+        ctx.stat("long-description:%s:%s" % (shape, where))
+        detail = {"description": desc, "where": where, "long_description": True}
+        try:
+            t1 = schema.to_string()
+            s2 = build_schema(t1)
+            q = s2.types["Query"]
+            got = {"type": q.description, "field": q.fields[0].description, "argument": q.fields[0].arguments[0].description}[where]
+            t2 = s2.to_string()
+        except Exception as e:  # noqa
+            ctx.fail("long-description:%s:%s" % (type(e).__name__, shape), "a long description line breaks to_string / build_schema", detail)
+            continue
+        ctx.nontrivial(t1)
+        if got != desc or t1 != t2:
+            if shape == "no-break":
+                ctx.fail("roundtrip-differs:long-line-without-break", "a long description line without a break opportunity is changed", detail)
+            else:
+                ctx.fail("H12:description-rewrapped:%s" % ("not-a-fixpoint" if t1 != t2 else "changed"),
+                         "a description line longer than the wrap width is broken at a word boundary: the rebuilt description differs", detail)
+
+
 def run_corpus(ctx):
     from common import CORPUS
     from py_gql import build_schema
@@ -687,6 +736,7 @@ def run_model(ctx, histories):
 def run(ctx):
     ctx.extra["printer_state_statement"] = state_statement()
     run_corpus(ctx)
+    run_long_descriptions(ctx)
     run_roundtrip(ctx)
     hist = []
     run_histories(ctx, hist)
@@ -708,6 +758,18 @@ def replay(ctx, data):
         fresh, outs = run_history(ctx, schemas, hist)
         reset_state()
         return fresh == outs
+    if inp.get("long_description"):
+        from py_gql import build_schema
+        from py_gql import schema as S
+        desc, where = inp["description"], inp["where"]
+        arg = S.Argument("a", S.Int, description=desc if where == "argument" else None)
+        fld = S.Field("f", S.Int, args=[arg], description=desc if where == "field" else None)
+        schema = S.Schema(S.ObjectType("Query", [fld], description=desc if where == "type" else None))
+        t1 = schema.to_string()
+        s2 = build_schema(t1)
+        q = s2.types["Query"]
+        got = {"type": q.description, "field": q.fields[0].description, "argument": q.fields[0].arguments[0].description}[where]
+        return got == desc and s2.to_string() == t1
     if "source" in inp:
         schema, h2 = rebuild_case(inp["source"])
         sub = type("Sub", (), {})()
